@@ -16,7 +16,22 @@ use crate::jsonpath::*;
 macro_rules! harness {
     ($name:ident, $body:expr) => {
         #[kani::proof]
-        #[kani::unwind(3)]
+        #[kani::unwind(1)]
+        #[kani::stub(crate::parser::parse_value, no_parse_value)]
+        #[kani::stub(crate::de::from_slice, no_from_slice)]
+        #[kani::stub(std::ptr::drop_in_place, noop_drop)]
+        #[kani::stub(crate::builder::ObjectBuilder::build_into, no_object_builder)]
+        #[kani::stub(core::str::from_utf8, from_utf8_model)]
+        fn $name() {
+            $body
+        }
+    };
+}
+
+macro_rules! harness_obj {
+    ($name:ident, $body:expr) => {
+        #[kani::proof]
+        #[kani::unwind(1)]
         #[kani::stub(crate::parser::parse_value, no_parse_value)]
         #[kani::stub(crate::de::from_slice, no_from_slice)]
         #[kani::stub(std::ptr::drop_in_place, noop_drop)]
@@ -73,7 +88,7 @@ harness!(c07_concat_delete_get, split1(3, |k| {
     while v <= 3 {
         if i == v {
             let mut r2 = Vec::new();
-            let d = delete_by_index(&r1, i, &mut r2);
+            let d = delete_by_index(&r1, v, &mut r2);
             let p = if v < 0 { n as i32 + v } else { v };
             let mut out = items;
             let mut m = n;
